@@ -1,4 +1,5 @@
 import CnlProofs.Elastic
+import CnlProofs.ElasticScaled
 /-!
 # C05 — elastic_integer arithmetic never overflows and stays within its declared digits
 
@@ -23,6 +24,23 @@ states the same with the storage selections as explicit hypotheses.)
 
 Nothing is left unproved; the only part of the property that fails is the one refuted by
 `shrConst_refuted`.
+
+## elastic_scaled_integer = scaled_integer<elastic_integer<D, N>, power<E>>  (last section)
+
+Model `CnlModel/ElasticScaled.lean` (validated by the same correspondence table).  An `ESNum` with
+representation `value` and exponent `exp` denotes `value · 2^exp`.
+
+* `scaleUpE_exact`, `scaleUp_exact` — `scale<k>` (`k ≥ 0`, the alignment step of `+ - < …`) is exactly
+  `value · 2^k` in `D + k` digits: the multiplication in the result's storage type cannot overflow.
+* `scaleDown_exact`    — `scale<-k>` is the truncated `value / 2^k` in `D − k` digits; the divisor
+  `divisor_rep{1} << k` is computed in the storage of `elastic_integer<1 + k, N>`, which has more than
+  `k` digits, so the shift is defined and positive (`scaleDown_divisor_needs_digits`: in a `k+1`-*bit*
+  signed type `1 << 31` would be `INT_MIN`).
+* `scaled_binOp_exact` — `+ - * / %`: exponent `min`, `+`, `−`, left; representation the exact
+  result on the aligned representations; in the declared range of the result's digits; never
+  undefined.  `scaled_add_exact` … `scaled_mod_exact` spell the five cases out.
+* `scaled_neg_exact`, `scaled_cmp_by_value`, `scaled_cmp_denoted` — unary minus; the six comparisons
+  compare the denoted values `value · 2^exp` for every signedness mix.
 -/
 namespace Cnl.C05
 open Cnl Cnl.Elastic Cnl.Spec
@@ -165,5 +183,191 @@ theorem cmp_exact_all (x y : ENum) (hx : x.InRange) (hy : y.InRange)
 example : cmp .lt ⟨31, i32, -1⟩ ⟨32, u32, 4294967295⟩ = .ok true := by decide
 example : cmp .gt ⟨8, u8, 255⟩ ⟨7, i8, -127⟩ = .ok true := by decide
 example : cmp .eq ⟨64, u64, 18446744073709551615⟩ ⟨7, i8, -1⟩ = .ok false := by decide
+
+/-! ## elastic_scaled_integer -/
+
+open Cnl.ElasticScaled (ESNum scaleUpE scaleUp scaleDown shifted kL kR opKL opKR resultExp resultValue)
+
+/-- `scale<k>` on an elastic representation (`elastic_integer/scale.h`, `k ≥ 0`): whenever the
+storage of the `D + k`-digit result exists, the result is exactly `x · 2^k`, in `D + k` digits with
+the same narrowest type, inside its declared range; the multiplication in the result's storage type
+never overflows (no undefined behaviour) -/
+theorem scaleUpE_exact (x : ENum) (k : Nat) (hx : x.InRange) {rrep : IntTy}
+    (hR : repTy (x.digits + k) x.narrowest = some rrep) :
+    ∃ z, scaleUpE x k = .ok z ∧ z.digits = x.digits + k ∧ z.narrowest = x.narrowest ∧
+      z.value = x.value * 2^k ∧ z.InRange := by
+  have ⟨h1, hf⟩ := ElasticScaled.scaleUpE_core x k hx hR
+  exact ⟨_, h1, rfl, rfl, rfl, hf⟩
+
+example : (⟨40, i32, -1099511627775⟩ : ENum).InRange ∧ repTy (40 + 31) i32 = some i128 ∧
+    scaleUpE ⟨40, i32, -1099511627775⟩ 31 = .ok ⟨71, i32, -1099511627775 * 2^31⟩ := by decide
+example : scaleUpE ⟨8, u8, 255⟩ 24 = .ok ⟨32, u8, 4278190080⟩ := by decide
+example : scaleUpE ⟨7, i8, -127⟩ 24 = .ok ⟨31, i8, -2130706432⟩ := by decide
+-- beyond the widest storage the instantiation is ill-formed
+example : scaleUpE ⟨100, i32, 1⟩ 31 = .ill "digits exceed the widest integer" := by decide
+
+/-- the same on the scaled number: `k` more fractional digits, the denoted value unchanged
+(`shifted x k` has representation `x.value · 2^k` and exponent `x.exp − k`) -/
+theorem scaleUp_exact (x : ESNum) (k : Nat) (hx : x.InRange) (hwf : ∀ m, scaleUp x k ≠ .ill m) :
+    scaleUp x k = .ok ⟨x.digits + k, x.narrowest, x.exp - k, x.value * 2^k⟩ ∧
+      (⟨x.digits + k, x.narrowest, x.exp - k, x.value * 2^k⟩ : ESNum).InRange :=
+  ElasticScaled.scaleUp_wf x k hx hwf
+
+/-- `scale<-k>` on an elastic representation (`k ≤ D`): whenever the three storage types exist
+(the operand's, the divisor's `elastic_integer<1 + k, N>`, the result's), the result is the truncated
+quotient `x / 2^k` in `D − k` digits, inside its declared range, with no undefined behaviour: the
+divisor `divisor_rep{1} << k` is a defined shift with the positive value `2^k` -/
+theorem scaleDown_exact (x : ENum) (k : Nat) (hx : x.InRange) (hk : k ≤ x.digits)
+    (hwf : ∀ m, scaleDown x k ≠ .ill m) :
+    ∃ z, scaleDown x k = .ok z ∧ z.digits = x.digits - k ∧ z.narrowest = x.narrowest ∧
+      z.value = x.value.tdiv (2^k) ∧ z.InRange := by
+  have ⟨h1, hf⟩ := ElasticScaled.scaleDown_wf x k hx hk hwf
+  exact ⟨_, h1, rfl, rfl, rfl, hf⟩
+
+/-- … with the storage selections as explicit hypotheses -/
+theorem scaleDown_exact_of_types (x : ENum) (k : Nat) (hx : x.InRange) (hk : k ≤ x.digits)
+    {rep drep rrep : IntTy} (hRep : repTy x.digits x.narrowest = some rep)
+    (hD : repTy (1 + k) x.narrowest = some drep) (hRr : repTy (x.digits - k) x.narrowest = some rrep) :
+    scaleDown x k = .ok ⟨x.digits - k, x.narrowest, x.value.tdiv (2^k)⟩ ∧
+      (⟨x.digits - k, x.narrowest, x.value.tdiv (2^k)⟩ : ENum).InRange :=
+  ElasticScaled.scaleDown_core x k hx hk hRep hD hRr
+
+example : (⟨40, i32, -1099511627775⟩ : ENum).InRange ∧ repTy 40 i32 = some i64 ∧ repTy (1 + 31) i32 = some i64 ∧
+    repTy (40 - 31) i32 = some i32 ∧
+    scaleDown ⟨40, i32, -1099511627775⟩ 31 = .ok ⟨9, i32, -511⟩ := by decide
+example : scaleDown ⟨31, i32, -2147483647⟩ 31 = .ok ⟨0, i32, 0⟩ := by decide
+example : scaleDown ⟨32, u32, 4294967295⟩ 31 = .ok ⟨1, u32, 1⟩ := by decide
+example : scaleDown ⟨8, u8, 255⟩ 8 = .ok ⟨0, u8, 0⟩ := by decide
+/-- why the divisor type needs `1 + k` *digits*: in a signed type of `k + 1` bits (`int` for `k = 31`)
+the shift `1 << 31` is `INT_MIN`, and the quotient would change sign -/
+theorem scaleDown_divisor_needs_digits :
+    cBin .shl (i32, 1) (i32, 31) = .ok (i32, -2147483648) ∧
+    cBin .shl (i64, 1) (i32, 31) = .ok (i64, 2147483648) ∧ repTy (1 + 31) i32 = some i64 := by decide
+
+/-- `+ - * / %` on elastic_scaled_integer: for all digit counts, exponents, signedness mixes and
+narrowest widths, and all in-range operands (non-zero divisor for `/ %`), whenever the result type
+exists the operator returns — never undefined behaviour — a number `z` with the exponent
+`resultExp` (`min` for `+ −`, sum for `*`, difference for `/`, the left one for `%`), whose
+representation is the exact result on the representations (for `+ −`: on the representations
+aligned to the smaller exponent, `value · 2^(exp − min)`), whose digits are the elastic policy's for
+the (aligned) operand digits, and which lies in the declared range of those digits -/
+theorem scaled_binOp_exact (op : AOp) (x y : ESNum) (hx : x.InRange) (hy : y.InRange)
+    (h0 : (op = .div ∨ op = .mod) → y.value ≠ 0)
+    (hwf : ∀ m, ElasticScaled.binOp (AOp.toBin op) x y ≠ .ill m) :
+    ∃ z sg, ElasticScaled.binOp (AOp.toBin op) x y = .ok z ∧
+      z.exp = resultExp op x.exp y.exp ∧ z.value = resultValue op x y ∧
+      policy (AOp.toBin op) (x.digits + opKL op x y) x.narrowest.signed
+        (y.digits + opKR op x y) y.narrowest.signed = some (z.digits, sg) ∧
+      z.InRange ∧ (sg = false → 0 ≤ z.value) := by
+  obtain ⟨d, sg, n, hp, h1, he, hs⟩ := ElasticScaled.binOp_wf op x y hx hy h0 hwf
+  exact ⟨_, sg, h1, rfl, rfl, hp, he.mono hs, fun h => (fits_iff.mp he).2 h⟩
+
+theorem scaled_binOp_no_ub (op : AOp) (x y : ESNum) (hx : x.InRange) (hy : y.InRange)
+    (h0 : (op = .div ∨ op = .mod) → y.value ≠ 0)
+    (hwf : ∀ m, ElasticScaled.binOp (AOp.toBin op) x y ≠ .ill m) (k : UB) :
+    ElasticScaled.binOp (AOp.toBin op) x y ≠ .ub k := by
+  obtain ⟨z, _, h1, _⟩ := scaled_binOp_exact op x y hx hy h0 hwf
+  rw [h1]; intro h; cases h
+
+/-- `+`: exponent `e = min`, representation `x·2^(ex − e) + y·2^(ey − e)`, i.e. `z·2^e` is the exact sum
+of the denoted values -/
+theorem scaled_add_exact (x y : ESNum) (hx : x.InRange) (hy : y.InRange)
+    (hwf : ∀ m, ElasticScaled.binOp .add x y ≠ .ill m) :
+    ∃ z, ElasticScaled.binOp .add x y = .ok z ∧ z.exp = min x.exp y.exp ∧
+      z.value = x.value * 2^(x.exp - min x.exp y.exp).toNat + y.value * 2^(y.exp - min x.exp y.exp).toNat ∧
+      z.digits = max (x.digits + (x.exp - min x.exp y.exp).toNat) (y.digits + (y.exp - min x.exp y.exp).toNat) + 1 ∧
+      z.InRange := by
+  obtain ⟨z, sg, h1, he, hv, hp, hr, _⟩ := scaled_binOp_exact .add x y hx hy (by simp) hwf
+  simp only [AOp.toBin, policy, Option.some.injEq, Prod.mk.injEq] at hp
+  exact ⟨z, h1, he, hv, hp.1.symm, hr⟩
+
+/-- `−` -/
+theorem scaled_sub_exact (x y : ESNum) (hx : x.InRange) (hy : y.InRange)
+    (hwf : ∀ m, ElasticScaled.binOp .sub x y ≠ .ill m) :
+    ∃ z, ElasticScaled.binOp .sub x y = .ok z ∧ z.exp = min x.exp y.exp ∧
+      z.value = x.value * 2^(x.exp - min x.exp y.exp).toNat - y.value * 2^(y.exp - min x.exp y.exp).toNat ∧
+      z.InRange := by
+  obtain ⟨z, sg, h1, he, hv, hp, hr, _⟩ := scaled_binOp_exact .sub x y hx hy (by simp) hwf
+  exact ⟨z, h1, he, hv, hr⟩
+
+/-- `*`: exponents add, representations multiply -/
+theorem scaled_mul_exact (x y : ESNum) (hx : x.InRange) (hy : y.InRange)
+    (hwf : ∀ m, ElasticScaled.binOp .mul x y ≠ .ill m) :
+    ∃ z, ElasticScaled.binOp .mul x y = .ok z ∧ z.exp = x.exp + y.exp ∧ z.value = x.value * y.value ∧
+      z.InRange := by
+  obtain ⟨z, sg, h1, he, hv, hp, hr, _⟩ := scaled_binOp_exact .mul x y hx hy (by simp) hwf
+  exact ⟨z, h1, he, hv, hr⟩
+
+/-- `/` (non-zero divisor): exponents subtract, the representation is the truncated quotient -/
+theorem scaled_div_exact (x y : ESNum) (hx : x.InRange) (hy : y.InRange) (h0 : y.value ≠ 0)
+    (hwf : ∀ m, ElasticScaled.binOp .div x y ≠ .ill m) :
+    ∃ z, ElasticScaled.binOp .div x y = .ok z ∧ z.exp = x.exp - y.exp ∧ z.value = x.value.tdiv y.value ∧
+      z.digits = x.digits ∧ z.InRange := by
+  obtain ⟨z, sg, h1, he, hv, hp, hr, _⟩ := scaled_binOp_exact .div x y hx hy (fun _ => h0) hwf
+  simp only [AOp.toBin, policy, Option.some.injEq, Prod.mk.injEq] at hp
+  exact ⟨z, h1, he, hv, hp.1.symm, hr⟩
+
+/-- `%` (non-zero divisor): the left exponent, the remainder of the representations -/
+theorem scaled_mod_exact (x y : ESNum) (hx : x.InRange) (hy : y.InRange) (h0 : y.value ≠ 0)
+    (hwf : ∀ m, ElasticScaled.binOp .mod x y ≠ .ill m) :
+    ∃ z, ElasticScaled.binOp .mod x y = .ok z ∧ z.exp = x.exp ∧ z.value = x.value.tmod y.value ∧
+      z.InRange := by
+  obtain ⟨z, sg, h1, he, hv, hp, hr, _⟩ := scaled_binOp_exact .mod x y hx hy (fun _ => h0) hwf
+  exact ⟨z, h1, he, hv, hr⟩
+
+-- 40 digits at 2^-31 plus 20 digits at 2^0: the right operand is widened by 31 digits (storage `int64`)
+example : ElasticScaled.binOp .add ⟨40, i32, -31, -1099511627775⟩ ⟨20, i32, 0, 1048575⟩
+    = .ok ⟨52, i32, -31, -1099511627775 + 1048575 * 2^31⟩ := by decide
+example : (⟨40, i32, -31, -1099511627775⟩ : ESNum).InRange ∧ (⟨20, i32, 0, 1048575⟩ : ESNum).InRange ∧
+    (∀ m, ElasticScaled.binOp (AOp.toBin .add) ⟨40, i32, -31, -1099511627775⟩ ⟨20, i32, 0, 1048575⟩ ≠ .ill m) := by
+  refine ⟨by decide, by decide, fun m h => ?_⟩
+  have e : ElasticScaled.binOp (AOp.toBin .add) ⟨40, i32, -31, -1099511627775⟩ ⟨20, i32, 0, 1048575⟩
+      = .ok ⟨52, i32, -31, -1099511627775 + 1048575 * 2^31⟩ := by decide
+  rw [e] at h; cases h
+example : ElasticScaled.binOp .sub ⟨8, u8, 3, 255⟩ ⟨8, u8, -5, 255⟩ = .ok ⟨16, i8, -5, 255 * 2^8 - 255⟩ := by decide
+example : ElasticScaled.binOp .mul ⟨31, i32, -16, -2147483647⟩ ⟨32, u32, -8, 4294967295⟩
+    = .ok ⟨63, i32, -24, -9223372030412324865⟩ := by decide
+example : ElasticScaled.binOp .div ⟨40, i32, -31, -1099511627775⟩ ⟨10, i32, 4, -1000⟩
+    = .ok ⟨40, i32, -35, 1099511627⟩ := by decide
+example : ElasticScaled.binOp .mod ⟨40, i32, -31, -1099511627775⟩ ⟨10, i32, 4, 1000⟩
+    = .ok ⟨10, i32, -31, -775⟩ := by decide
+
+/-- unary minus: the exact negation, same digits and exponent, signed, in range, never undefined -/
+theorem scaled_neg_exact (x : ESNum) (hx : x.InRange) (hwf : ∀ m, ElasticScaled.neg x ≠ .ill m) :
+    ∃ z, ElasticScaled.neg x = .ok z ∧ z.value = -x.value ∧ z.exp = x.exp ∧ z.digits = x.digits ∧
+      z.narrowest.signed = true ∧ z.InRange := by
+  have ⟨h1, hf⟩ := ElasticScaled.neg_core x hx hwf
+  exact ⟨_, h1, rfl, rfl, rfl, rfl, hf⟩
+
+example : ElasticScaled.neg ⟨32, u32, -7, 4294967295⟩ = .ok ⟨32, i32, -7, -4294967295⟩ := by decide
+example : (⟨40, i32, -31, -1099511627775⟩ : ESNum).InRange ∧
+    ElasticScaled.neg ⟨40, i32, -31, -1099511627775⟩ = .ok ⟨40, i32, -31, 1099511627775⟩ := by decide
+
+/-- every comparison of two in-range elastic_scaled_integers — any digits, exponents, signedness mix
+and narrowest widths for which the aligned common type exists — is the comparison of the integers
+`value · 2^(exp − e)`, `e` the smaller exponent: of the denoted values `value · 2^exp` in units of `2^e` -/
+theorem scaled_cmp_by_value (op : CmpOp) (x y : ESNum) (hx : x.InRange) (hy : y.InRange)
+    (hwf : ∀ m, ElasticScaled.cmp op x y ≠ .ill m) :
+    ElasticScaled.cmp op x y = .ok (cmpExact op (x.value * 2^(x.exp - min x.exp y.exp).toNat)
+      (y.value * 2^(y.exp - min x.exp y.exp).toNat)) :=
+  ElasticScaled.cmp_core op x y hx hy hwf
+
+/-- … and the unit does not matter: for every `e0` at or below both exponents the result is the
+comparison of `x.value · 2^(x.exp − e0)` with `y.value · 2^(y.exp − e0)` -/
+theorem scaled_cmp_denoted (op : CmpOp) (x y : ESNum) (hx : x.InRange) (hy : y.InRange)
+    (hwf : ∀ m, ElasticScaled.cmp op x y ≠ .ill m) (e0 : Int) (hx0 : e0 ≤ x.exp) (hy0 : e0 ≤ y.exp) :
+    ElasticScaled.cmp op x y = .ok (cmpExact op (x.value * 2^(x.exp - e0).toNat) (y.value * 2^(y.exp - e0).toNat)) := by
+  rw [scaled_cmp_by_value op x y hx hy hwf]
+  exact congrArg Res.ok (ElasticScaled.cmpExact_aligned op x y e0 hx0 hy0)
+
+-- -1·2^-31 < (2^32 − 1)·2^0 across signedness; 255·2^3 = 2040 > 2039·2^0; 3·2^-1 = 6·2^-2
+example : ElasticScaled.cmp .lt ⟨31, i32, -31, -1⟩ ⟨32, u32, 0, 4294967295⟩ = .ok true := by decide
+example : ElasticScaled.cmp .gt ⟨8, u8, 3, 255⟩ ⟨11, i16, 0, 2039⟩ = .ok true := by decide
+example : ElasticScaled.cmp .eq ⟨40, i32, -1, 3⟩ ⟨40, u32, -2, 6⟩ = .ok true := by decide
+example : (⟨31, i32, -31, -1⟩ : ESNum).InRange ∧ (⟨32, u32, 0, 4294967295⟩ : ESNum).InRange ∧
+    (∀ m, ElasticScaled.cmp .lt ⟨31, i32, -31, -1⟩ ⟨32, u32, 0, 4294967295⟩ ≠ .ill m) := by
+  refine ⟨by decide, by decide, fun m h => ?_⟩
+  have e : ElasticScaled.cmp .lt ⟨31, i32, -31, -1⟩ ⟨32, u32, 0, 4294967295⟩ = .ok true := by decide
+  rw [e] at h; cases h
 
 end Cnl.C05
